@@ -15,6 +15,8 @@ from fnode import is_lit, litval
 ALL = frozenset("<=>u")
 ORD = frozenset("<=>")
 U = frozenset("u")
+_LEU = frozenset("<=u")
+_GEU = frozenset(">=u")
 
 TRUTH = {
     "Lt": {"<": True, "=": False, ">": False, "u": False},
@@ -82,6 +84,7 @@ class OrderStore:
         self.nan = {}   # i -> True/False (absent = unknown)
         self.adj = {}   # i -> set of j with an informative stored relation
         self.lits = []  # indices of literal nodes
+        self.inf = {}   # index -> +1 / -1 for the literals +inf / -inf
         self.pending = []
 
     # ---- registration
@@ -95,6 +98,10 @@ class OrderStore:
         if is_lit(n):
             y = litval(n)
             self.nan[i] = math.isnan(y)
+            if y == math.inf:
+                self.inf[i] = 1
+            elif y == -math.inf:
+                self.inf[i] = -1
             for j in self.lits:
                 x = litval(self.nodes[j])
                 if math.isnan(x) or math.isnan(y):
@@ -118,9 +125,18 @@ class OrderStore:
         a, b = self.nan.get(i), self.nan.get(j)
         if a is True or b is True:
             return U
-        if a is False and b is False:
-            return ORD
-        return ALL
+        m = ORD if (a is False and b is False) else ALL
+        # every non-NaN value is <= +inf and >= -inf
+        ii, ij = self.inf.get(i), self.inf.get(j)
+        if ij == 1 and ii is None:
+            m = m & _LEU
+        elif ij == -1 and ii is None:
+            m = m & _GEU
+        if ii == 1 and ij is None:
+            m = m & _GEU
+        elif ii == -1 and ij is None:
+            m = m & _LEU
+        return m
 
     def _geti(self, i, j):
         if i < j:
